@@ -93,6 +93,8 @@ def threads_set(tier):
     profs = list(fp.profiles(3, 3))
     if tier != "quick":
         profs += list(fp.profiles(4, 2, nmin=4)) + [(1, 2, 3, 4), (4, 4), (4, 1, 4), (2, 2, 2, 2, 2)]
+    else:
+        profs += [(1, 1, 1, 1), (2, 1, 2, 1), (1, 2, 1, 2), (2, 2, 1, 1), (4, 2), (1, 4)]
     for ds in profs:
         for mac in SPAWN4:
             if tier == "quick" and len(ds) == 3 and max(ds) == 3 and mac in ("spawn", "try_spawn") and ds.count(3) > 1:
@@ -114,14 +116,16 @@ def panic_set(tier):
     out = []
     dmax = 2 if tier == "quick" else 3
     profs = list(fp.profiles(3, dmax))
-    if tier != "quick":
+    if tier == "quick":
+        profs += [ds for ds in fp.profiles(2, 3) if max(ds) == 3] + [(1, 1, 1, 1), (2, 1, 1, 2)]
+    else:
         profs += list(fp.profiles(4, 2, nmin=4))
     for ds in profs:
         for mac in SPAWN4:
             is_try = mac.startswith("try")
             p = fp.build(mac, ds, init_ev=True, rich=(sum(ds) <= 4), flavour="Res" if is_try else None)
             slots = fp.fail_slots(ds)
-            sub = slots if (is_try and sum(ds) <= (4 if tier == "quick" else 5)) else ()
+            sub = slots if (is_try and sum(ds) <= 5) else ()
             out.append(tprog("%s/%s" % (mac, fp.pname(ds)), p, ds, panics=slots, sub=sub))
     return out
 
